@@ -302,7 +302,7 @@ def run(ctx):
                    'error of the product and regrid_exact (re-encoding a decoded double gives the same integer) are compared '
                    'bit-exactly with CPython on boundary values, not proved',
                    'fixpoint E(D(E(x)))=E(x) and the corpus fixpoint go through repr/JSON text: differential only',
-                   'compressed messages: pending DecodeC/EncodeC']
+                   'compressed messages: C03_decode_encode_compressed is proved for all templates; its non-vacuity and the ghost values are measured in the C05 check (ghost_templates_check), not here']
     ctx.assumptions = ['CPython float multiply = IEEE-754 round-to-nearest-even (Float53.fmul); 10**s for negative s correctly rounded '
                        '(checked for a sample of s inside Coq on every run)']
 
